@@ -33,7 +33,9 @@ macro_rules
 theorem lin_decodeApiVersions : Lin 0 0 decodeApiVersions := by unfold decodeApiVersions; lin
 theorem lin_decodeProduce (v : Int) : Lin 0 0 (decodeProduce v) := by
   unfold decodeProduce produceTopics; lin
-theorem lin_decodeFetch (v : Int) : Lin 0 0 (decodeFetch v) := by unfold decodeFetch; lin
+theorem lin_fetchHead (v : Int) : Lin 0 0 (fetchHead v) := by unfold fetchHead; lin
+theorem lin_decodeFetch (v : Int) : Lin 0 0 (decodeFetch v) := by
+  unfold decodeFetch fetchHead fetchTopics fetchTopic fetchPartition; lin
 theorem lin_decodeOffset : Lin 0 0 decodeOffset := by unfold decodeOffset; lin
 theorem lin_decodeMetadata : Lin 0 0 decodeMetadata := by unfold decodeMetadata; lin
 theorem lin_decodeConsumerMetadata : Lin 0 0 decodeConsumerMetadata := by
